@@ -403,4 +403,27 @@ def vmSlice {α : Type} (m : Mode) (v a b c : Val α) : Chk (Except Err (Val α)
     .ok (.error ⟨MJ.Gen.c09VmSliceUndefinedErr, ""⟩)
   else sliceV v a b c
 
+/-! ## `MergeSeq::get_value` (the sequence `|chain` builds from sequences) -/
+
+/-- the walk over the operands: `cur` is `current_idx`; the operand whose index range
+    `cur .. cur + len` contains `idx` answers with its item `idx - cur` -/
+def mergeGetFrom {α : Type} (xss : List (List α)) (idx cur : Nat) : Option α :=
+  match xss with
+  | [] => Option.none
+  | xs :: rest =>
+    if idx < cur + xs.length then xs[idx - cur]?       -- `value.get_item(idx - current_idx)`
+    else mergeGetFrom rest idx (cur + xs.length)
+
+def mergeGet {α : Type} (xss : List (List α)) (idx : Nat) : Option α := mergeGetFrom xss idx 0
+
+/-- `get_item_opt` on a `MergeSeq` of `ObjectRepr::Seq`: `index` against the total length, then
+    `get_value(index-or-key)` like every sequence -/
+def mergeGetItem {α : Type} (xss : List (List α)) (key : Val α) : Option α :=
+  match indexOf key (some (xss.map List.length).sum) with
+  | some idx => mergeGet xss idx
+  | Option.none =>
+    match valUsize key with
+    | some n => mergeGet xss n
+    | Option.none => Option.none
+
 end MJ.Sub
